@@ -2,6 +2,7 @@
 import re
 
 CONFIG = {
+    "manifest": {'level_text': "Coq theorems over Q (closed under the global context), with angles as exact (cos, sin) pairs: Polygon translate / scale / mirror / rotate / transform equal the stated affine maps on every vertex (mirror proved to be the reflection across the axis and unique); Reference and Label transform compose placements (rotation sign flips under reflection, magnifications multiply), for any sequence of transforms; FlexPath translate / scale / mirror / rotate / transform and RobustPath transforms move the element's centre line by the affine image for every magnification (negative included), reflection and angle, widths scale iff scale_width, offsets by +-|m|, end extensions by |m|; Repetition::transform maps every offset by the linear part. The models mirror the C++ arithmetic statement by statement and run, extracted, against the real transforms on exact-arithmetic inputs (parameter correspondence), and the property itself (transform then outline = outline then transform) is decided on outlines by a metamorphic oracle.", 'level_note': 'Over Q only (no reals, no axioms); sin/cos of doubles are inexact, so results are compared on a 2^-24 grid. Outline-level agreement is validated per run (1e-9 relative), not proved. One clause is refuted and recorded as a known finding: element transforms ignore the attached repetition (element_transform_repetition_refuted). Two defects (FlexPath::transform offsets; end extensions under negative scale) were repaired by fix: commits.', 'technique': 'Coq proofs over Q of the parameter-level affine action + extracted-model differential run + metamorphic outline oracle'},
     "prop_file": "Properties_C10",
     "units": [
         {"extract_file": "Extract_C10", "extracted": ["c10_transform"], "driver": "c10_transform",
